@@ -567,6 +567,38 @@ def run_model(mr, scs, res):
     return out
 
 
+def model_kill_table(mr):
+    """the table [interruptible] of Locks/Kill.v, read from the extracted model: {client command-type name: bool}"""
+    p = subprocess.run([mr], input="T\n", capture_output=True, text=True, timeout=60)
+    for ln in p.stdout.splitlines():
+        f = ln.split("\t")
+        if f[:2] == ["T", "table"]:
+            return {x.split("=")[0]: x.split("=")[1] == "1" for x in f[2:]}
+    return None
+
+
+def kill_table_differential(v, mr, scs, res, cov):
+    """every driver run reports tikvrpc.Request.IsInterruptible for every command type of the client; it has to be the
+    table the theorems of PropsKill.v speak about: the modelled types agree one by one, every other type is interruptible"""
+    mt = model_kill_table(mr) if mr else None
+    if mt is None:
+        return
+    moff = sorted(k for k, b in mt.items() if not b)
+    seen, nrep = None, 0
+    for sc, r in zip(scs, res):
+        kt = r.get("kill_table")
+        if r.get("fatal") or kt is None:
+            continue
+        nrep += 1
+        if sorted(kt["not_interruptible"]) != moff:
+            v.violation({"kind": "correspondence", "correspondence": "kill table: tikvrpc.Request.IsInterruptible of the client vs [interruptible] of coq/theories/Locks/Kill.v",
+                         "client_not_interruptible": kt["not_interruptible"], "model_not_interruptible": moff, "model_table": mt, "scenario": sc,
+                         "theorem": "C06_release_requests_ignore_kill / C06_no_leftover_under_any_kill_schedule speak about the model's table"})
+            break
+        seen = kt
+    cov["kill_table"] = {"model": mt, "client": seen, "runs_compared": nrep}
+
+
 def side_oracles(sc, r, exp=None):
     """oracles on the client's own state of t1 that a leftover-lock scan cannot see (all evaluated on the implementation):
     (P) while a pessimistic transaction is open, its primary key is a key the client tracks as locked (flagged, current or
@@ -740,9 +772,14 @@ def main(tier, replay):
     t0 = time.time()
     v = Verdict(PID)
     rng = random.Random(vlib.SEED)
-    cov = {"checker_cmd": "coq/mk.sh theories/Locks/Props.vo + Print Assumptions", "trusted_base": vlib.TRUSTED_BASE}
+    cov = {"checker_cmd": "coq/mk.sh theories/Locks/Props.vo theories/Locks/PropsKill.vo + Print Assumptions per theorem; thorough tier: coqchk -o", "trusted_base": vlib.TRUSTED_BASE}
     g = vlib.coq_gate(PID, AREAS, PROPS)
     cov.update(obligations=g["obligations"], discharged=g["discharged"], theorems=g["theorems"], axioms={k: a for k, a in g["axioms"].items() if a})
+    if tier == "thorough" and g["ok"]:
+        okc, outc = vlib.coqchk(["Verif." + m for _, m in PROPS])
+        cov["coqchk"] = "ok" if okc else outc[-300:]
+        if not okc:
+            g["ok"] = False; g["problems"].append("coqchk failed: " + outc[-300:])
     if not g["ok"]:
         v.violation({"kind": "proof", "theorem_or_file": g["problems"], "what": "Coq obligations no longer check"}, has_input=False)
     okd, exe = txnlab.build_driver()
@@ -764,11 +801,13 @@ def main(tier, replay):
         mres = run_model(mr, [sc], [r]).get(sc["id"]) if mr else None
         print("replay:", sc["id"], "leftover locks:", leftovers(r), "model leftover:", mres and mres[1], "model vs client:", mres and mres[0], "notes:", r.get("notes"))
         judge(v, sc, r, mres, counts)
+        kill_table_differential(v, mr, [sc], [r], {})
         return v.finish()
     n = 700 if tier == "quick" else 6000
     scs = directed() + [gen_program(rng, i) for i in range(n)] + [gen_agg_program(rng, i) for i in range(n // 2)] + [gen_expiry_program(rng, i) for i in range(n // 12)] + [gen_schedule_program(rng, i) for i in range(n // 25)]
     res = txnlab.run_scenarios(exe, scs)
     mall = run_model(mr, scs, res) if mr else {}
+    kill_table_differential(v, mr, scs, res, cov)
     nviol, dist, distinct, steps_cmp = 0, {}, set(), 0
     for sc, r in zip(scs, res):
         if r.get("fatal"):
@@ -830,7 +869,7 @@ def main(tier, replay):
             nviol += 1
     cov.update(evaluations=len(scs), distinct_nontrivial=len(distinct), model_programs_compared=len(mall), model_steps_compared=steps_cmp,
                model_disagreements=counts.get("model_disagree", 0), lock_call_classes=counts,
-               rule="14 directed + random well-formed programs (4-13 steps) of set/delete/insert/lock-keys(return-values, check-existence, lock-only-if-exists, no-wait / 30 ms wait, for-update ts taken before a concurrent commit)/aggressive start-retry-cancel-done/commit/rollback for t1 with a contending pessimistic t2, splits in between, modes {2pc, async, 1pc}, plus programs centred on aggressive-locking attempts (re-locks of previous-attempt keys with other options, inserts inside an attempt, a multi-key call leaving the mode); no fault, no clock advance; oracle: after the gates are quiet no key holds a lock whose start ts belongs to a finished transaction; correspondence: extracted Locks model replays t1 with the observed store outcomes, bookkeeping compared after every call, final lock set with the audit; distinct non-trivial = distinct programs in which at least one step failed",
+               rule="14 directed + random well-formed programs (4-13 steps) of set/delete/insert/lock-keys(return-values, check-existence, lock-only-if-exists, no-wait / 30 ms wait, for-update ts taken before a concurrent commit)/aggressive start-retry-cancel-done/commit/rollback for t1 with a contending pessimistic t2, splits in between, modes {2pc, async, 1pc}, plus programs centred on aggressive-locking attempts (re-locks of previous-attempt keys with other options, inserts inside an attempt, a multi-key call leaving the mode); no fault, no clock advance; oracle: after the gates are quiet no key holds a lock whose start ts belongs to a finished transaction; kill table differential: tikvrpc.Request.IsInterruptible read for every command type of the client on every driver run = the extracted table [interruptible] of Locks/Kill.v; correspondence: extracted Locks model replays t1 with the observed store outcomes, bookkeeping compared after every call, final lock set with the audit; distinct non-trivial = distinct programs in which at least one step failed",
                samples=[{"program": scs[i]["program"], "txns": res[i].get("txns")} for i in (0, 8, 9, 20) if i < len(scs)], input_distribution=dist)
     rc = v.finish()
     vlib.write_evidence(PID, cov, t0, violations=len(v.violations), level="proof",
